@@ -443,7 +443,15 @@ def run(prog, rep, tier, repo):
         d = ('arg', 1, f.names.get(1))
         rets = f.return_values()
         ok = len(rets) == 1 and rets[0] == ('bin', 'Div', ('call', 'linalg::utils::sum', (d,), None), ('cast', 'IntToFloat', ('len', d), 'f64', 'usize'), 'f64')
-        (rep.ok if ok else rep.viol)('wiring', key, 'mean(data) = sum(data) / data.len() as f64' if ok else 'mean is %s' % [show(r) for r in rets], site_of(f.body))
+        # refuted in the read form only: sum(data) divided by something written in terms of data.len()
+        read = len(rets) == 1 and tag(rets[0]) == 'bin' and rets[0][1] == 'Div' and rets[0][2] == ('call', 'linalg::utils::sum', (d,), None) \
+            and any(z == ('len', d) for z in subterms(rets[0][3])) and not any(tag(z) == 'call' for z in subterms(rets[0][3]))
+        if ok:
+            rep.ok('wiring', key, 'mean(data) = sum(data) / data.len() as f64')
+        elif read:
+            rep.viol('wiring', key, 'mean is %s' % [show(r) for r in rets], site_of(f.body))
+        else:
+            rep.undecided('wiring', key, 'mean is not sum(data) / <expression in data.len()> (%s): not read' % [show(r)[:80] for r in rets], site_of(f.body), proof=False)
     for ty in ('linalg::array::vec::Vector', 'linalg::array::matrix::Matrix'):
         for m in ('max', 'mean', 'min', 'std', 'var', 'sample_std', 'sample_var'):
             k = '%s::%s' % (ty, m)
